@@ -2,6 +2,7 @@
 mod checks;
 mod rig;
 mod oracle;
+mod refzx;
 mod tapemodel;
 mod z80lock;
 mod z80prod;
